@@ -170,7 +170,7 @@ def _c12():
             lambda: syscheck.C12Scenario(tier), "system-c12", "C12", "C12", tier, seed, budget_s, jobs,
             level="exploration", rule=RULE_SYS, assumptions=ASSUME_SYS,
             real_components=REAL_SYS, stub_components=STUB_SYS,
-            required_probes=["lifecycle_serve", "lifecycle_never-served", "lifecycle_shutdown-inflight", "lifecycle_handle-loop", "lifecycle_serve-twice", "lifecycle_close-while-serving", "lifecycle_stop-rpc",
+            required_probes=["request_with_a_pause_of_seconds_inside", "library_logging_at_debug_level", "several_requests_on_one_connection", "lifecycle_serve", "lifecycle_never-served", "lifecycle_shutdown-inflight", "lifecycle_handle-loop", "lifecycle_serve-twice", "lifecycle_close-while-serving", "lifecycle_stop-rpc",
                              "server_plain", "server_pooled", "server_pooled-user", "family_unix", "family_tcp",
                              "two_methods_executing_at_once", "shutdown_with_request_in_flight", "invalid_body_sent",
                              "client_died_mid_body", "client_aborted_connection", "request_without_length", "shared_request_and_notification_pool",
@@ -290,7 +290,7 @@ def _c18():
             assumptions=["one definition per header name inside one dictionary (two spellings of one name in the same dict have no 'most recent')",
                          "header values are latin-1 encodable", "sampling, not exhaustive"],
             real_components=REAL_CLI, stub_components=STUB_CLI,
-            required_probes=["block_exit_normal", "block_exit_exception", "base_exception_exit", "credentials_in_url", "fault_refuse", "fault_reset", "fault_5xx-len", "fault_truncated",
+            required_probes=["second_proxy_on_the_same_transport", "call_refused_while_writing_headers", "block_exit_normal", "block_exit_exception", "base_exception_exit", "credentials_in_url", "fault_refuse", "fault_reset", "fault_5xx-len", "fault_truncated",
                              "user_agent_overridden", "nesting_3_or_more", "same_name_in_other_case", "protected_name_pushed", "notify", "batch"])
 
     return run
@@ -325,7 +325,8 @@ def _c17():
                          "the 'raw-utf8' back-end stands for the optional JSON libraries jsonlib can select (only the standard json module is installed)",
                          "framing, URL and scheme clauses are functions of the input; the simulator contributes the wire observation point, segmentation and the chunk knob"],
             real_components=REAL_CLI + ["jsonrpclib.SimpleJSONRPCServer do_POST / CGI handler - real code"], stub_components=STUB_CLI,
-            required_probes=["mode_client", "mode_server", "mode_cgi", "mode_scheme", "backend_raw_utf8", "encoding_gzip", "encoding_gzip-multi",
+            required_probes=["request_with_a_pause_of_seconds_inside", "unsupported_scheme_with_a_supplied_transport", "transport_supplied", "transport_shared",
+                             "mode_client", "mode_server", "mode_cgi", "mode_scheme", "backend_raw_utf8", "encoding_gzip", "encoding_gzip-multi",
                              "encoding_chunked", "unbuffered_request_stream", "empty_request_body", "cgi_body_read_in_pieces", "earlier_call_refused_while_building_headers",
                              "multibyte_response_beyond_first_read", "multibyte_request_with_small_read_chunk", "whitespace_only_read_block", "earlier_exchange_cut_mid_body", "query_string",
                              "percent_escape_in_path", "family_unix", "short_reads"])
@@ -366,7 +367,8 @@ def _c02():
                          "registered callables return JSON-representable values or raise ordinary exceptions; payloads are free of __jsonclass__",
                          "the corpus is a sample: exhaustive only over damage positions of the listed entries"],
             real_components=REAL_SYS, stub_components=STUB_SYS,
-            required_probes=["server_plain", "server_pooled", "server_dispatcher", "damage_trunc", "damage_repl", "empty_reply",
+            required_probes=["request_with_a_pause_of_seconds_inside", "library_logging_at_debug_level", "notification_pool_set",
+                             "server_plain", "server_pooled", "server_dispatcher", "damage_trunc", "damage_repl", "empty_reply",
                              "parse_error_reply", "invalid_request_reply", "success_reply"])
 
     return run
